@@ -249,13 +249,17 @@ def strat_nndvi(tier):
 
 
 # ------------------------------------------------------------ large batches
-def expand(rows, k):
-    """k shifted copies of a small block (keeps the drawn data small while the batch has thousands of rows)"""
+def expand(rows, k, coded=False):
+    """k copies of a small block (shifted by small amounts unless the data are integer codes): keeps the drawn
+    data small while the batch has thousands of rows"""
+    if coded:
+        return [list(r) for j in range(k) for r in rows]
     return [[v + (j % 7) / 64.0 for v in r] for j in range(k) for r in rows]
 
 
 def big_batch(spec):
-    return expand(spec["a"], spec["ka"]) + expand(spec["b"], spec["kb"])
+    c = spec.get("coded", False)
+    return expand(spec["a"], spec["ka"], c) + expand(spec["b"], spec["kb"], c)
 
 
 def reorder(rows, how):
@@ -324,16 +328,21 @@ def strat_kdq_large(tier):
     @st.composite
     def s(draw):
         d = draw(st.integers(1, 2))
-        p = {"alpha": draw(st.sampled_from([0.05, 0.2, 0.5])), "bootstrap_samples": draw(st.integers(3, 5)), "count_ubound": draw(st.sampled_from([50, 200, 1000]))}
+        p = {"alpha": draw(st.sampled_from([0.05, 0.2, 0.5])), "bootstrap_samples": draw(st.integers(3, 5)), "count_ubound": draw(st.sampled_from([20, 50, 200, 1000]))}
+        coded = draw(st.booleans())  # low-cardinality integer codes: block a uses few codes, block b many
         nb = draw(st.integers(2, 4))
         batches, orders = [], []
         for i in range(nb):
-            a = draw(vs.batch(d, 8, 24, [draw(st.sampled_from([0, 0, 3])) for _ in range(d)], 2, 16))
-            b = draw(vs.batch(d, 8, 24, [0] * d, 2, 16))
-            target = draw(st.sampled_from([300, 1025, 4097, 4200, 6000, 8193, 9000])) if i else draw(st.sampled_from([200, 2000, 5000]))
+            if coded:
+                a = draw(st.lists(st.lists(st.integers(0, 3).map(float), min_size=d, max_size=d), min_size=8, max_size=24))
+                b = draw(st.lists(st.lists(st.integers(0, 60).map(float), min_size=d, max_size=d), min_size=16, max_size=24))
+            else:
+                a = draw(vs.batch(d, 8, 24, [draw(st.sampled_from([0, 0, 3])) for _ in range(d)], 2, 16))
+                b = draw(vs.batch(d, 8, 24, [0] * d, 2, 16))
+            target = draw(st.sampled_from([300, 1025, 2049, 4097, 4200, 6000, 8193, 9000, 16385, 20000, 33000, 66000])) if i else draw(st.sampled_from([200, 2000, 2100, 5000, 17000]))
             ka = max(1, int(target * draw(st.sampled_from([0.2, 0.3, 0.5])) / len(a)))
             kb = max(1, (target - ka * len(a)) // len(b) + 1)
-            batches.append({"a": a, "ka": ka, "b": b, "kb": kb})
+            batches.append({"a": a, "ka": ka, "b": b, "kb": kb, "coded": coded})
             orders.append(draw(st.sampled_from(["reverse", "reverse", "interleave", "rotate:%d" % draw(st.integers(1, 5000))])))
         return {"params": p, "batches": batches, "orders": orders, "seed_base": draw(vs.seed_base)}
 
@@ -357,7 +366,7 @@ PROPERTY = {
         "current_distance equal within 1e-12 on every batch; detect_batch=3: thresholds and the full decision sequence equal (a batch whose "
         "public margin |epsilon-beta| is within 1e-9 ends the comparison); detect_batch=2: compared up to the first batch whose "
         "bootstrap-dependent decisions differ. KdqTreeBatch: node counts from to_plotly_dataframe() identical, leaf divergence equal, "
-        "decisions equal; kdq_batch_large repeats this with batches of 300-9000 rows (two tiled blocks, sizes around 1024 / 4096 / 8192, reordered by reversal, rotation or interleaving). NNDVI: NNPS distance (recomputed through the public partitioner) equal, decisions equal. Non-trivial = a "
+        "decisions equal; kdq_batch_large repeats this with batches of 300-66000 rows (two tiled blocks of continuous values or integer codes, sizes around 1024 / 2048 / 4096 / 8192 / 16384 / 32768 / 65536, reordered by reversal, rotation or interleaving). NNDVI: NNPS distance (recomputed through the public partitioner) equal, decisions equal. Non-trivial = a "
         "non-identity permutation of a batch with >= 2 distinct rows in a history with >= 1 drift."
     ),
     "assumptions": ["HDDDM/CDBD detect_batch=1 is outside the property (reference split by position)"],
